@@ -1112,6 +1112,10 @@ def check_history_property(ctx):
                         t[3] = "3"
                         extra.append(case[:i] + [" ".join(t)] + case[i + 1:])
             cases += extra
+        if pid == "C14":
+            # the matrix also under the accessor projection (own generator: the cases above stay as they were)
+            import random as _random
+            cases += op_state_matrix(ctx, gk, None, _random.Random(ctx.seed * 104729 + sum(kt.encode())))
         hres = compare_cases(ctx, kt, cases, None, fields_for, pid.lower(), mon)
         cross_hist(ctx, kt, cases, hres)
         for c in cases:
